@@ -9,6 +9,9 @@ type Desc struct {
 	Pkg  string `json:"pkg"`  // proto package == go package name of the structs
 	Msgs []Msg  `json:"msgs"` // top-level messages in declaration order
 	Deps []Dep  `json:"deps"` // extra, unrelated dependency files placed before F in the request
+	// Dotted: the PROTO package of the file(s) is a dotted name (acme.<pkg>.v1) while the Go package stays <pkg>:
+	// type names in the descriptors read .acme.<pkg>.v1.Msg
+	Dotted bool `json:"dotted"`
 }
 
 // Dep is an unrelated dependency file (C12).
